@@ -26,6 +26,22 @@ typedef amgcl::verif::access acc;
 
 static void set_threads(long nt) { omp_set_dynamic(0); omp_set_num_threads((int)nt); }
 
+// Poisoned heap: blocks of all small sizes are allocated, filled and freed again, so that a
+// following `new T[n]` that is not initialised by the library sees non-zero recycled memory.
+// The fill byte depends on the thread count (0xFF for odd, 0x00 for even counts, plus a
+// pattern), so a result that depends on uninitialised memory differs ACROSS thread counts.
+static void poison_heap(long nt) {
+    std::vector<char*> blocks;
+    unsigned char fill = (nt % 2) ? 0xFF : 0x00;
+    for (int rep = 0; rep < 3; ++rep)
+        for (size_t sz = 1; sz <= 8192; sz += (sz < 256 ? 1 : 64)) {
+            char *p = new char[sz];
+            for (size_t k = 0; k < sz; ++k) p[k] = (char)(fill ^ (unsigned char)((nt * 37 + k * 11) & (nt % 3 == 0 ? 0x55 : 0x00)));
+            blocks.push_back(p);
+        }
+    for (size_t k = 0; k < blocks.size(); ++k) delete[] blocks[k];
+}
+
 // ---- table dump -------------------------------------------------------------------
 // payload: <nthreads> then per thread: [b e b e ...] [ord ...] {k ncols | c:v ... | ...} ([D ...])
 template <class P, class V>
@@ -157,23 +173,25 @@ template <class V> struct G {
         return show(r); }
     // transfer operators: P and R of one coarsening step
     template <class C> static std::string transfer(C &c, const M &A) {
-        auto PR = c.transfer_operators(A);
-        return "P " + vq::show_crs(*std::get<0>(PR), false) + " R " + vq::show_crs(*std::get<1>(PR), false);
+        try {
+            auto PR = c.transfer_operators(A);
+            return "P " + vq::show_crs(*std::get<0>(PR), false) + " R " + vq::show_crs(*std::get<1>(PR), false);
+        } catch (const amgcl::error::empty_level&) { return "EXC empty_level"; }
     }
-    static std::string aggr(Tok &t) { set_threads(t.i());
+    static std::string aggr(Tok &t) { long nt_ = t.i(); set_threads(nt_);
         std::string eps = t.s(); auto A = t.crsT<V>(); be::sort_rows(*A);
         typename amgcl::coarsening::aggregation<Backend>::params p; p.aggr.eps_strong = (float)(double)vq::parse(eps);
-        amgcl::coarsening::aggregation<Backend> c(p); return transfer(c, *A); }
-    static std::string saggr(Tok &t) { set_threads(t.i());
+        amgcl::coarsening::aggregation<Backend> c(p); poison_heap(nt_); return transfer(c, *A); }
+    static std::string saggr(Tok &t) { long nt_ = t.i(); set_threads(nt_);
         std::string eps = t.s(); long est = t.i(); auto A = t.crsT<V>(); be::sort_rows(*A);
         typename amgcl::coarsening::smoothed_aggregation<Backend>::params p; p.aggr.eps_strong = (float)(double)vq::parse(eps);
         p.estimate_spectral_radius = (est != 0); p.power_iters = 0;
-        amgcl::coarsening::smoothed_aggregation<Backend> c(p); return transfer(c, *A); }
-    static std::string rs(Tok &t) { set_threads(t.i());
+        amgcl::coarsening::smoothed_aggregation<Backend> c(p); poison_heap(nt_); return transfer(c, *A); }
+    static std::string rs(Tok &t) { long nt_ = t.i(); set_threads(nt_);
         std::string eps = t.s(); long trunc = t.i(); auto A = t.crsT<V>(); be::sort_rows(*A);
         typename amgcl::coarsening::ruge_stuben<Backend>::params p; p.eps_strong = (float)(double)vq::parse(eps);
         p.do_trunc = (trunc != 0);
-        amgcl::coarsening::ruge_stuben<Backend> c(p); return transfer(c, *A); }
+        amgcl::coarsening::ruge_stuben<Backend> c(p); poison_heap(nt_); return transfer(c, *A); }
 
     static void reg(const std::string &pfx) {
         auto &r = vq::registry();
